@@ -11,7 +11,8 @@ CHECKS = {
             "property-based round-trip testing (proptest) with an independent expectation model; bounded-exhaustive rotation sweep",
             "Generated instance forests are written by rbx_binary under all three compressions and read back; the decoded DOM is compared, "
             "bit-exactly and under only the normalisations the property names, with an expectation computed from the generated spec through "
-            "an independent database resolver. All 3^9 matrices over {-1,0,1} (incl. the 24 bases) are enumerated. Sampling elsewhere: absence "
+            "an independent database resolver. All 3^9 matrices over {-1,0,1} (incl. the 24 bases) are enumerated; a fixed list of large cases (values longer than the reader's 64 Ki pre-allocation caps, > 64 Ki instances of one class, "
+            "> 64 Ki classes) and, through the cfg hook, sweeps of the scalar codecs (all 2^32 inputs in the thorough tier) are run. Sampling elsewhere: absence "
             "of counter-examples among N cases, with label histograms showing the narrow regions were hit.",
             "trusts: proptest, the harness's own resolver over the public reflection types (cross-checked in C16), lz4/zstd crates",
             "DESIGN.md 2/C01"),
@@ -19,7 +20,7 @@ CHECKS = {
             "property-based round-trip testing (proptest) over the three option pairings, expectation model computed from the spec",
             "Generated forests restricted to XML-supported types and XML-1.0-legal characters (incl. ']]>', markup, CR/LF, whitespace-only) are written "
             "by rbx_xml and read back under default/default, WriteUnknown+ReadUnknown and NoReflection+NoReflection; the decoded DOM is compared with "
-            "an expectation computed from the spec (floats bit-exact unless NaN). Sampling: absence of counter-examples among N cases.",
+            "an expectation computed from the spec (floats bit-exact unless NaN); a fixed list of large cases (long text / base64 / shared strings / sequences, > 64 Ki instances). Sampling: absence of counter-examples among N cases.",
             "trusts: proptest, the harness's database resolver (cross-checked in C16)",
             "DESIGN.md 2/C02"),
     "C03": ("exploration",
@@ -52,16 +53,18 @@ CHECKS = {
             "trusts: the harness's database resolver (cross-checked in C16)",
             "DESIGN.md 2/C06"),
     "C07": ("exploration",
-            "metamorphic testing (construction variants, process re-execution, re-save fixed point) on proptest-generated DOMs",
-            "The same logical tree built through different insert sequences, property insertion orders and fresh referents must serialize to identical bytes (binary x3, XML); batches are re-serialized in "
+            "metamorphic testing (construction variants, process re-execution, save history incl. injected failed saves, re-save fixed point) on proptest-generated DOMs",
+            "The same logical tree built through different insert sequences, property insertion orders and fresh referents (incl. nodes carrying several spellings of one property, and property maps grown and shrunk beforehand) must serialize to identical bytes (binary x3, XML); a tree saved before and after other saves on "
+            "the same thread - successful ones and ones failing inside attribute encoding, on a type mismatch or by an injected sink failure - must give the same bytes; batches are re-serialized in "
             "freshly started processes (own hash seeds) and compared; save(load(save(load(F)))) must equal save(load(F)) for own and foreign files.",
             "trusts: process re-execution as the source of different RandomState seeds",
             "DESIGN.md 2/C07"),
     "C08": ("exploration",
-            "metamorphic + round-trip property testing over generated same-class groups (sibling-order permutations, value-independence of defaults)",
+            "metamorphic + round-trip property testing over generated same-class groups and mixed-class families (sibling-order permutations, independence from siblings and from other classes); exhaustive list of inherited defaults",
             "Generated groups of 2-6 same-class instances with property subsets spelled through canonical / alias / serializes-as / legacy names: (1) if each serializes alone the group "
             "must serialize in every sibling permutation (all n! up to 4, 24 sampled beyond); (2) after read-back each instance shows its own (migrated where legacy) values and database "
-            "defaults / neutral values for what it lacked; (3) what it shows for a lacked property must not change when only the siblings' values change. The two pairs of canonical "
+            "defaults / neutral values for what it lacked; (3) what it shows for a lacked property must not change when only the siblings' values change; (4) in files mixing 2-7 instances of related classes every instance reads back what it reads back from a file of its own class only; "
+            "(5) every property whose inheriting classes disagree on the database default x all 24 orders of set / lacking instances of two such classes. The two pairs of canonical "
             "properties that share one serialized name in the bundled database are open findings with exhaustive probes.",
             "trusts: PropertyMigration::perform and the BrickColor palette as the definition of a migrated value (their cross-path agreement is C15's subject)",
             "DESIGN.md 2/C08"),
@@ -75,7 +78,7 @@ CHECKS = {
     "C10": ("exploration",
             "model-based (stateful) property testing: lock-step diff of the real DOMs against a reference model after every operation",
             "Same histories as C09; after every step every DOM is compared instance by instance (referent, parent, child order, name, class, properties, instance set) "
-            "with a plain ordered-tree model executing the documented meaning of the step.",
+            "with a plain ordered-tree model executing the documented meaning of the step (a UniqueId that changes without a collision is reported here as well as under C12).",
             "trusts: the reference model (about 300 lines, documented semantics only)",
             "DESIGN.md 2/C09-C12"),
     "C11": ("exploration",
@@ -103,7 +106,7 @@ CHECKS = {
             "property-based differential testing against an independent attribute codec written from docs/attributes.md; bounded-exhaustive id sweeps",
             "Generated attribute maps are round-tripped through rbx_types, decoded by a reference decoder written from docs/attributes.md, compared byte for byte with the reference "
             "encoding, and blobs from the reference encoder (entry order shuffled) are decoded by the crate; the blob both file formats store for Instance.Attributes is extracted and "
-            "compared with Attributes::to_writer. All 256 rotation-id bytes, all BrickColor numbers and all 256 type-id bytes are enumerated.",
+            "compared with Attributes::to_writer. All 256 rotation-id bytes, all BrickColor numbers and all 256 type-id bytes are enumerated, and a fixed list of long values (strings and sequences around and above 64 Ki items, last or followed by another entry).",
             "trusts: docs/attributes.md; rotation snapping within f32::EPSILON is accepted as in the binary format",
             "DESIGN.md 2/C14"),
     "C15": ("exploration",
@@ -115,15 +118,17 @@ CHECKS = {
             "trusts: PropertyMigration::perform for the font table (agreement across paths is what is checked), BrickColor::to_color3uint8 as the database's colour table",
             "DESIGN.md 2/C15"),
     "C16": ("exploration",
-            "exhaustive walk over the bundled reflection database + per-class default round trips through both codecs + generated single-corruption self-test",
+            "exhaustive walk over the bundled reflection database + per-class default round trips through both codecs + proptest-generated coherent databases (API and codec differential against an own walk) + generated single-corruption self-test",
             "All 797 classes / 3242 descriptors / 458 enums / 7231 defaults are walked for dangling superclass, alias, serializes-as, migration and enum links and for default type agreement; every "
             "(class, property) is driven through both codecs (no panic, serialized name as predicted); an instance of every class populated with its defaults must survive both formats; "
-            "rbx_dom_lua/src/database.json must equal the msgpack database; random single corruptions of a cloned database must all be detected.",
-            "trusts: exhaustive only over the database compiled into the tree; a database regenerated from a newer dump cannot be produced offline",
+            "rbx_dom_lua/src/database.json must equal the msgpack database; superclasses / superclasses_iter / has_superclass / find_default_property of rbx_reflection are compared with an own walk for every class "
+            "(has_superclass against every other class); random coherent databases (2-23 classes, chains up to 23 deep, aliases, serializes-as links, defaults at random levels) get the same API comparison and a "
+            "deep class written and read by both codecs under that database; random single corruptions of a cloned database must all be detected.",
+            "trusts: exhaustive only over the database compiled into the tree; a database regenerated from a newer dump cannot be produced offline (generated coherent databases stand in for it)",
             "DESIGN.md 2/C16"),
     "C17": ("exploration",
-            "property-based round-trip testing through 7 serde codecs and the text forms; exhaustive u16 / u8 sweeps; fixture replay of allValues.json",
-            "Generated values of all 40 Variant variants go through serde_json (str, slice, reader, Value), bincode and rmp_serde (named, compact) and must come back bit-identical; Ref and "
+            "property-based round-trip testing through 7 serde codecs and the text forms; exhaustive u16 / u8 sweeps; fixed list of long values; independent base64 wire-form oracle; fixture replay of allValues.json",
+            "Generated values of all 40 Variant variants go through serde_json (str, slice, reader, Value), bincode and rmp_serde (named, compact) and must come back bit-identical (byte strings also compared with an own RFC 4648 encoder; long values with lengths around every power of two from 2^8 to 2^17 and 10^6); Ref and "
             "UniqueId go through Display/FromStr; every u16 BrickColor number and every Faces / Axes byte is enumerated; Tags and MaterialColors blobs are converted both ways; each sample of "
             "rbx_dom_lua/src/allValues.json must decode to its stated type and re-encode to the same JSON.",
             "trusts: serde_json (float_roundtrip), bincode, rmp_serde as correct transports",
@@ -133,7 +138,8 @@ CHECKS = {
             "Worker threads run new/clone/drop programs on SharedStrings and stop at every yield point (operation boundaries and the two hook points inside rbx_types); a controller lets "
             "one thread advance per step, so a schedule is a choice sequence that can be enumerated, generated, shrunk and replayed. After every step all live handles are inspected "
             "(bytes, ==, hash, shared buffer), and at quiescence the table must hold no entry of the case. All schedules of all pairs of 2-operation (quick) / 3-operation and triples of "
-            "2-operation (thorough) programs are enumerated exhaustively.",
+            "2-operation (thorough) programs are enumerated exhaustively. Free-running part: 16 threads churn (create and drop) four contents so that reference counts cross zero under contention, with checker threads comparing "
+            "buffers of back-to-back handles, panics captured per thread and a poisoned-table probe; then a mixed new/clone/drop phase.",
             "trusts: std's Arc/Mutex; schedules are controlled at exactly the granularity the property names; the free-running part is a stress sample",
             "DESIGN.md 2/C18"),
 }
